@@ -1068,6 +1068,29 @@ func (g *Graph) factsLattice() Lattice[Facts] {
 						}
 					}
 				}
+				// flag = true / flag = false / var flag bool: the flag's value is known
+				if as, ok := st.Node.(*ast.AssignStmt); ok && len(as.Lhs) == len(as.Rhs) && (as.Tok == token.ASSIGN || as.Tok == token.DEFINE) {
+					for i, rhs := range as.Rhs {
+						lid, isId := as.Lhs[i].(*ast.Ident)
+						if !isId || lid.Name == "_" {
+							continue
+						}
+						if tv, has := info.Types[rhs]; has && tv.Value != nil && tv.Value.Kind() == constant.Bool {
+							if obj := info.ObjectOf(lid); obj != nil && obj.Parent() != nil && obj.Parent() != obj.Pkg().Scope() {
+								n.m[lid.Name] = constant.BoolVal(tv.Value)
+							}
+						}
+					}
+				}
+				if vs, isVS := st.Node.(*ast.ValueSpec); isVS && len(vs.Values) == 0 {
+					for _, nm := range vs.Names {
+						if obj := info.Defs[nm]; obj != nil && nm.Name != "_" {
+							if b, isB := obj.Type().Underlying().(*types.Basic); isB && b.Kind() == types.Bool {
+								n.m[nm.Name] = false
+							}
+						}
+					}
+				}
 				// X = make([]T, n)  =>  len(X) == n ; X = T{F: make([]E, n)} => len(X.F) == n ;
 				// x = <const | len(Y) | ident>  =>  x == rhs (scalar copies used by later bounds reasoning)
 				if as, ok := st.Node.(*ast.AssignStmt); ok && len(as.Lhs) == len(as.Rhs) && (as.Tok == token.ASSIGN || as.Tok == token.DEFINE) {
@@ -1602,6 +1625,21 @@ func expandBoolLocals(g *Graph, e ast.Expr, depth int, stale map[string]bool) (a
 			owner = g.unitOf(x)
 		}
 		if !singleAssigned(info, owner.Decl.Body, obj) {
+			return e, false
+		}
+		// `var flag bool` that is set later has two values (false until then): it does not name its one assignment
+		zeroDeclared := false
+		ast.Inspect(owner.Decl.Body, func(y ast.Node) bool {
+			if vs, isVS := y.(*ast.ValueSpec); isVS && len(vs.Values) == 0 {
+				for _, nm := range vs.Names {
+					if info.Defs[nm] == types.Object(obj) {
+						zeroDeclared = true
+					}
+				}
+			}
+			return !zeroDeclared
+		})
+		if zeroDeclared {
 			return e, false
 		}
 		d := localDef(info, owner, x)
